@@ -109,8 +109,9 @@ def illClause (why : String) : String :=
   else if why ∈ ["illegal character", "not UTF-8"] then ":character"  -- [2] Char, §4.3.3 encoding
   else if why = "]]> in character data" then ":cdata-end"             -- [14] CharData
   else if why = "-- inside comment" then ":comment"                   -- [15] Comment
-  else if why ∈ ["PI target", "XML declaration not at the start / reserved PI target", "XMLDecl without version", "XMLDecl"]
-  then ":pi"                                        -- [16] PI, [17] PITarget, [23] XMLDecl
+  else if why ∈ ["PI target", "reserved PI target"] then ":pi-target"  -- [16] PI, [17] PITarget: a Name, not `xml` in any case
+  else if why ∈ ["XML declaration not at the start", "XMLDecl without version", "XMLDecl"]
+  then ":xmldecl"                                   -- [22] prolog, [23] XMLDecl
   else if why ∈ ["misplaced DOCTYPE", "DOCTYPE name", "< in DOCTYPE", "unknown <! markup"]
   then ":doctype"                                   -- [22] prolog, [28] doctypedecl
   else ""
